@@ -871,7 +871,7 @@ func c06Temporal(c *core.Ctx, k *astKit, ck *constKit) {
 			return t
 		}
 		ar.in.Stubs["factstore.ReadOnlyTemporalFactStore.GetAllFacts"] = func(in *ordabs.Interp, _ ordabs.Value, args []ordabs.Value) ([]ordabs.Value, error) {
-			for _, tf := range []ordabs.Value{mkTF(a1, 1, 2), mkTF(a1, 5, 6), mkTF(a2, 1, 2)} {
+			for _, tf := range []ordabs.Value{mkTF(a1, 1, 2), mkTF(a2, 1, 2), mkTF(a1, 5, 6)} {
 				o, err := in.CallValue(args[1], []ordabs.Value{tf})
 				if err != nil {
 					return nil, err
@@ -892,10 +892,10 @@ func c06Temporal(c *core.Ctx, k *astKit, ck *constKit) {
 			continue
 		}
 		sort.Strings(atoms)
-		c.Check(fmt.Sprint(atoms) == "[p(1) p(2)]", rule, "factstore.TemporalFactStoreAdapter", gf.Decl.Pos(), "each atom once ("+mode+")", fmt.Sprintf("the temporal store holds p(1) (two intervals) and p(2); the adapter's GetFacts yields %v, want [p(1) p(2)]", atoms))
+		c.Check(fmt.Sprint(atoms) == "[p(1) p(2)]", rule, "factstore.TemporalFactStoreAdapter", gf.Decl.Pos(), "each atom once ("+mode+")", fmt.Sprintf("the temporal store reports p(1)@[1,2], p(2)@[1,2], p(1)@[5,6] in this order (as stacked layers do); the adapter's GetFacts yields %v, want [p(1) p(2)]", atoms))
 		// the adapter pinned to one instant: p(1) holds there through two overlapping, un-coalesced intervals
 		ar.in.Stubs["factstore.ReadOnlyTemporalFactStore.GetFactsAt"] = func(in *ordabs.Interp, _ ordabs.Value, args []ordabs.Value) ([]ordabs.Value, error) {
-			for _, tf := range []ordabs.Value{mkTF(a1, 1, 6), mkTF(a1, 5, 6), mkTF(a2, 1, 6)} {
+			for _, tf := range []ordabs.Value{mkTF(a1, 1, 6), mkTF(a2, 1, 6), mkTF(a1, 5, 6)} {
 				o, err := in.CallValue(args[2], []ordabs.Value{tf})
 				if err != nil {
 					return nil, err
@@ -912,6 +912,6 @@ func c06Temporal(c *core.Ctx, k *astKit, ck *constKit) {
 			continue
 		}
 		sort.Strings(atoms)
-		c.Check(fmt.Sprint(atoms) == "[p(1) p(2)]", rule, "factstore.TemporalFactStoreAdapter:at-instant", gf.Decl.Pos(), "each atom once at a pinned instant ("+mode+")", fmt.Sprintf("at instant 5 the temporal store holds p(1) (through two overlapping intervals) and p(2); the pinned adapter's GetFacts yields %v, want [p(1) p(2)]", atoms))
+		c.Check(fmt.Sprint(atoms) == "[p(1) p(2)]", rule, "factstore.TemporalFactStoreAdapter:at-instant", gf.Decl.Pos(), "each atom once at a pinned instant ("+mode+")", fmt.Sprintf("at instant 5 the temporal store reports p(1)@[1,6], p(2)@[1,6], p(1)@[5,6] in this order; the pinned adapter's GetFacts yields %v, want [p(1) p(2)]", atoms))
 	}
 }
